@@ -317,7 +317,7 @@ def crash_site(status, err):
     if m:
         # use-after-free: the root cause is named by the function that freed; otherwise by the faulting function
         part = err.split('freed by thread', 1)[1] if 'freed by thread' in err else err
-        frames = re.findall(r'#\d+ 0x[0-9a-f]+ in (\w+) \S*/(?:build/[0-9a-f]{16}/src|harness)/(\w+\.c)', part)
+        frames = re.findall(r'#\d+ 0x[0-9a-f]+ in (\w+) \S*/(?:[0-9a-f]{16}/src|harness)/(\w+\.c)', part)
         frames = [f for f in frames if f[1] != 'util.c'] or frames
         return 'asan:%s:%s-%s' % (m.group(1), 'freed-in' if part is not err else 'in', frames[0][0] if frames else '?')
     m = re.search(r'(\w+\.c):(\d+):\d+: runtime error: ([a-z -]+)', err)
